@@ -100,6 +100,7 @@ WELL_FORMED = {
     ("multivariate_student_t", "loc"): [0.0, 0.0],
     ("multivariate_student_t", "scale"): [[1.0, 0.0], [0.0, 1.0]],
     ("print_kauri_tree", "feature_names"): ["a", "b", "c"],
+    ("*", "groups"): [[0, 1]],
     ("add_mlcl_constraint", "must_link"): [[0, 1]],
     ("add_mlcl_constraint", "cannot_link"): [[0, 2]],
 }
@@ -146,15 +147,19 @@ def realise(v, owner, param):
             return [("lambda a,b: a@b", lambda a, b: float(a @ b))]
         return [("lambda X: X@X.T", lambda X: X @ X.T)]
     if k == "dict":
-        return [("{}", {})] if param.endswith("_params") else [("{'a': 1}", {"a": 1})]
-    wf = WELL_FORMED.get((owner, param))
+        if param.endswith("_params"):
+            return [("{}", {})]
+        if param == "feature_names":      # as many entries as features, so that only the TYPE is wrong
+            return [("{'x':'a','y':'b','z':'c'}", {"x": "a", "y": "b", "z": "c"})]
+        return [("{'a': 1}", {"a": 1})]
+    wf = WELL_FORMED.get((owner, param), WELL_FORMED.get(("*", param)))
     if k == "list":
-        if wf is not None:
-            return [("list", copy.deepcopy(wf))]
-        return [("list", [[0, 1]])] if param == "groups" else [("list", [1, 2])]
+        return [("list", copy.deepcopy(wf))] if wf is not None else [("list", [1, 2])]
     if k == "tuple":
         return [("tuple", _deep_tuple(wf))] if wf is not None else [("tuple", (1, 2))]
     if k == "ndarray":
+        if param == "groups":     # well-formed content in the wrong container: a partial and a complete partition
+            return [("ndarray [[0,1]]", np.array([[0, 1]])), ("ndarray [[0,1,2]]", np.array([[0, 1, 2]]))]
         if wf is not None:
             return [("ndarray", np.array(wf))]
         return [("ndarray(bool mask)", np.array([True, False, True]))]
@@ -267,20 +272,17 @@ def functions():
 def decorator_table(fn):
     """the dict handed to @constraint_params (read from the wrapper's closure; for a class, from its __init__ or the
     first decorated parent __init__ it forwards to)"""
-    target = fn
+    targets = [fn]
     if inspect.isclass(fn):
-        for c in fn.__mro__:
-            init = c.__dict__.get("__init__")
-            if init is not None and getattr(init, "__closure__", None):
-                target = init
-                break
-        else:
-            return None, None
-    try:
-        nl = inspect.getclosurevars(target).nonlocals
-    except TypeError:
-        return None, None
-    return nl.get("parameter_constraints"), nl.get("func")
+        targets = [c.__dict__["__init__"] for c in fn.__mro__ if inspect.isfunction(c.__dict__.get("__init__"))]
+    for target in targets:
+        try:
+            nl = inspect.getclosurevars(target).nonlocals
+        except TypeError:
+            continue
+        if "parameter_constraints" in nl:
+            return nl["parameter_constraints"], nl.get("func")
+    return None, None
 
 
 def table_accepts_function(fn, param, obj):
